@@ -638,6 +638,9 @@ func flatten(logs [][]*sendRec) []*sendRec {
 
 func trafficCase(c *core.Case, pl *trafficPlan) {
 	run := c.Run
+	if strings.HasPrefix(c.Group, "race-") {
+		run.Count("cases_under_race_detector", 1)
+	}
 	p, ok := startPair(c, pl.Cfg, pl)
 	if !ok {
 		return
